@@ -28,6 +28,11 @@ type TypeOpts struct {
 	// CompositeKeys: one map key in six is a tuple or struct of one or two
 	// MapKeys scalars (the grammar allows any type as a key).
 	CompositeKeys bool
+	// Wide: one type in three hundred (DrawType, Type) is a tuple or struct of
+	// many members (around 32, 64, 128, 256: where bit sets, small arrays and
+	// one-byte counters end), each a scalar or a container of scalars, by itself
+	// or as the element of a list, the value of a map or a member of a tuple.
+	Wide bool
 }
 
 // AllScalars are the sixteen scalar kinds that have a fixed encoding plus s.
@@ -67,7 +72,7 @@ func StructName(template bool) *rapid.Generator[string] {
 // Type generates a type of the grammar.
 func Type(o TypeOpts) *rapid.Generator[*ref.Type] {
 	return rapid.Custom(func(t *rapid.T) *ref.Type {
-		return drawType(t, o, o.Depth)
+		return DrawType(t, o)
 	})
 }
 
@@ -114,9 +119,10 @@ func drawType(t *rapid.T, o TypeOpts, depth int) *ref.Type {
 			min = 0
 		}
 		n := rapid.IntRange(min, o.Width).Draw(t, "n")
+		md := depth - 1
 		ms := make([]*ref.Type, n)
 		for i := range ms {
-			ms[i] = drawType(t, o, depth-1)
+			ms[i] = drawType(t, o, md)
 		}
 		return ref.TupleOf(ms...)
 	case "struct":
@@ -125,11 +131,12 @@ func drawType(t *rapid.T, o TypeOpts, depth int) *ref.Type {
 			min = 0
 		}
 		n := rapid.IntRange(min, o.Width).Draw(t, "n")
+		md := depth - 1
 		ms := make([]*ref.Type, n)
 		fs := make([]string, n)
 		seen := map[string]bool{}
 		for i := range ms {
-			ms[i] = drawType(t, o, depth-1)
+			ms[i] = drawType(t, o, md)
 			f := Ident().Draw(t, "field")
 			for seen[strings.ToLower(f)] {
 				f += "x"
@@ -142,6 +149,8 @@ func drawType(t *rapid.T, o TypeOpts, depth int) *ref.Type {
 		return ref.Scalar(rapid.SampledFrom(o.Leaves).Draw(t, "leaf"))
 	}
 }
+
+var wideCounts = []int{17, 31, 32, 33, 63, 64, 65, 66, 70, 100, 127, 128, 129, 200, 255, 256, 257}
 
 // ValueOpts bounds generated values.
 type ValueOpts struct {
@@ -202,7 +211,52 @@ func DrawValue(t *rapid.T, ty *ref.Type, o ValueOpts) interface{} {
 }
 
 // DrawType draws a type directly.
-func DrawType(t *rapid.T, o TypeOpts) *ref.Type { return drawType(t, o, o.Depth) }
+func DrawType(t *rapid.T, o TypeOpts) *ref.Type {
+	if o.Wide && o.Depth >= 1 && (o.Tuples || o.Structs) && rapid.IntRange(0, 299).Draw(t, "wide") == 0 {
+		return drawWide(t, o)
+	}
+	return drawType(t, o, o.Depth)
+}
+
+func drawWide(t *rapid.T, o TypeOpts) *ref.Type {
+	n := rapid.SampledFrom(wideCounts).Draw(t, "widen")
+	md := o.Depth - 1
+	if md > 1 {
+		md = 1
+	}
+	narrow := o
+	narrow.Width = 2
+	ms := make([]*ref.Type, n)
+	fs := make([]string, n)
+	for i := range ms {
+		ms[i] = drawType(t, narrow, md)
+		fs[i] = fmt.Sprintf("m%d%s", i, Ident().Draw(t, "field"))
+	}
+	var w *ref.Type
+	if o.Structs && (!o.Tuples || rapid.Bool().Draw(t, "widestruct")) {
+		w = ref.StructOf(StructName(o.Template).Draw(t, "name"), fs, ms)
+	} else {
+		w = ref.TupleOf(ms...)
+	}
+	if o.Depth < 2 {
+		return w
+	}
+	switch rapid.SampledFrom([]string{"bare", "bare", "list", "map", "tuple"}).Draw(t, "around") {
+	case "list":
+		if o.Lists {
+			return ref.ListOf(w)
+		}
+	case "map":
+		if o.Maps {
+			return ref.MapOf(ref.Scalar(rapid.SampledFrom(o.MapKeys).Draw(t, "key")), w)
+		}
+	case "tuple":
+		if o.Tuples {
+			return ref.TupleOf(ref.Scalar(rapid.SampledFrom(o.Leaves).Draw(t, "leaf")), w)
+		}
+	}
+	return w
+}
 
 // DrawDyn draws a dynamic value directly.
 func DrawDyn(t *rapid.T, o ValueOpts) ref.Dyn { return drawDyn(t, o, o.DynDepth) }
